@@ -31,6 +31,7 @@ type c14Step struct {
 	MapMode  string       `json:"map_mode,omitempty"`
 	MapSeed  uint64       `json:"map_seed,omitempty"`
 	Spelling string       `json:"spelling,omitempty"` // abs | rel | unclean
+	ExtraConv string      `json:"extra_conv,omitempty"` // a converter of this target is constructed and left unused right before the call
 	Decoys   []c14DecoyEv `json:"decoy_events,omitempty"`
 
 	// edit: set file Rel to version Version (0 = original)
@@ -170,7 +171,7 @@ func (h *c14Hist) materialise(env *Env) (*simrt.History, []*c14Key) {
 			case "unclean":
 				p = mount + "/./" + prog
 			}
-			st := simrt.Step{Kind: "transpile", Obj: s.Obj, Path: p, Target: s.Target, MapMode: s.MapMode, MapSeed: s.MapSeed}
+			st := simrt.Step{Kind: "transpile", Obj: s.Obj, Path: p, Target: s.Target, MapMode: s.MapMode, MapSeed: s.MapSeed, ExtraConv: s.ExtraConv}
 			duringCall := false
 			for _, d := range s.Decoys {
 				if len(h.Decoys) == 0 {
@@ -441,6 +442,10 @@ func c14GenOdd(r *Run, rng *gen.Rng, corpus []string, oddPool []string) *c14Hist
 		case k < 62:
 			s := c14Step{Kind: "T", Prog: rng.Intn(len(h.Progs)), Target: rng.Pick([]string{"bash", "batch"}),
 				MapMode: rng.Pick([]string{"canonical", "reversed", "rotate", "shuffle", "shuffle"}), MapSeed: rng.U64(), Spelling: rng.Pick([]string{"abs", "abs", "rel", "unclean"})}
+			if rng.Chance(25) {
+				// the caller has built more converters than this call uses (tsh builds all of them first)
+				s.ExtraConv = rng.Pick([]string{"bash", "batch"})
+			}
 			if rng.Chance(70) {
 				s.Obj = rng.Intn(3) // shared transpiler objects
 			} else {
